@@ -608,3 +608,54 @@ def n5(prog):
         if bad:
             findings.append({"key": key, "where": "libzwerg/lexer.ll", "msg": bad, "detail": None})
     return inst, findings
+
+
+def n6(prog):
+    """%( ... %) splices are delimited independently of one another and of what they contain: for embedded texts with nested
+    strings, brackets of all three kinds, nested format strings with their own splices, escaped quotes and percent signs, the literal
+    "pre%(E%)post" scans to FORMAT(STR pre, sub-query E, STR post), and "%(E1%)mid%(E2%)" to (sub-query E1, STR mid, sub-query E2)
+    for every ordered pair - the second splice is found the same way whatever the first one contained (scanner simulated)."""
+    import flexsim
+    inst, findings = [], []
+    sc = _scanner(prog)
+    embedded = [b" 1 ", b"x", b"(1, 2)", b"[a b]", b"{ }", b' "s" ', b' ")" ', b' "(" ', b' "a\\"b" ', b' "%( 1 %)" ', b' "%( "%( x %)" %)" ',
+                b"((a) [b {c}])", b' "100%%" ', b" a\nb ", b' "]" "[" ']
+
+    def parts(text):
+        try:
+            toks, _ = sc.tokens(text)
+        except flexsim.ScanError as x:
+            return ("error", str(x))
+        if [t[0] for t in toks] != ["TOK_LIT_STR", "TOK_EOF"]:
+            return ("tokens", tuple(t[0] for t in toks))
+        out = []
+        for tt, s_, kids in toks[0][1][2]:
+            if tt == "CAT":
+                out.append(("subq", s_))
+            elif s_:
+                out.append(("str", s_))
+        return out
+    bad = None
+    n = 0
+    for e in embedded:
+        got = parts(b'"pre%(' + e + b'%)post"')
+        n += 1
+        want = [("str", b"pre"), ("subq", e), ("str", b"post")]
+        if got != want and bad is None:
+            bad = '"pre%%(%s%%)post" scans to %s; expected %s' % (e.decode("latin-1"), got, want)
+    inst.append(("N6:single", {"literals": n}))
+    if bad:
+        findings.append({"key": "N6:single", "where": "libzwerg/lexer.ll", "msg": "an embedded expression is not delimited by its own %( %): " + bad, "detail": None})
+    bad = None
+    n = 0
+    for e1 in embedded:
+        for e2 in embedded:
+            got = parts(b'"%(' + e1 + b"%)mid%(" + e2 + b'%)"')
+            n += 1
+            want = [("subq", e1), ("str", b"mid"), ("subq", e2)]
+            if got != want and bad is None:
+                bad = '"%%(%s%%)mid%%(%s%%)" scans to %s; expected %s' % (e1.decode("latin-1"), e2.decode("latin-1"), got, want)
+    inst.append(("N6:pairs", {"literals": n}))
+    if bad:
+        findings.append({"key": "N6:pairs", "where": "libzwerg/lexer.ll", "msg": "the second splice of a literal is scanned differently depending on the first: " + bad, "detail": None})
+    return inst, findings
